@@ -84,3 +84,8 @@ def condition(m: TModule, *, nonblocking: bool = False, priority: bool = False):
             pass
 
     this.simultaneous_alternatives(*transactions)
+
+    # At most one branch runs, also when the containing method is nonexclusive.
+    for i, transaction in enumerate(transactions):
+        for other in transactions[i + 1 :]:
+            transaction.add_conflict(other)
